@@ -12,7 +12,7 @@ EXTENDS Element, SchemaDerived, Report, IOUtils, TLC
 
 Trace == ndJsonDeserialize(IOEnv.TRACE_FILE)
 
-A(e) == ModelOf[e.type]
+A(e) == ModelFor(e.type)
 
 RECURSIVE PureHist(_)
 PureHist(id) == id = 0 \/ (LET f == Trace[id] IN f.op = "add" /\ f.res.ok /\ f.fwd = NoFwd /\ PureHist(f.parent))
